@@ -18,6 +18,7 @@ from __future__ import annotations
 
 import json
 import math
+import os
 import random
 import sys
 import warnings
@@ -25,6 +26,10 @@ from fractions import Fraction as Fr
 from typing import Any, Dict, List, Optional, Tuple
 
 from .. import core
+
+# the implementation runs in a pool of forked workers on tiny matrices: BLAS/OpenMP threads only get in the way
+for _v in ("OMP_NUM_THREADS", "OPENBLAS_NUM_THREADS", "MKL_NUM_THREADS"):
+    os.environ.setdefault(_v, "1")
 
 REL_TOL = 1e-8  # correspondence and oracle tolerance, relative to the size of the geometry
 CURVE_TOL = 2e-5  # OnCurve edges: parameters come out of scipy.optimize.minimize
@@ -349,7 +354,9 @@ def kind_of(e) -> str:
     if isinstance(e, Sketch):
         if isinstance(e, cb.Grid):
             return "grid"
-        if isinstance(e, (WrappedDisk, cb.Oval)):
+        if isinstance(e, (WrappedDisk, cb.OneCoreDisk)):
+            return "face0"
+        if isinstance(e, cb.Oval):
             return "other"
         if isinstance(e, DiskBase):
             return "firstpt"
